@@ -67,6 +67,8 @@ type FuncVC struct {
 	retReach        []string
 	uses            []string
 	probes          []Probe
+	typeByID        map[string]types.Type
+	binderDepth     int // >0 while evaluating under a quantifier: no facts may be emitted (they would mention bound variables)
 }
 
 type edge struct{ from, to int }
@@ -253,6 +255,8 @@ func (fv *FuncVC) get(fr *Frame, v ssa.Value) Val {
 			fv.ctx.Assume(fmt.Sprintf("(> %s 0)", name))
 			if mt, ok := pt.Underlying().(*types.Map); ok {
 				fv.globalMapFacts(x, name, mt)
+			} else if !isStructLike(pt) {
+				fv.globalConstFact(x, name, pt)
 			}
 		}
 		return Val{T: x.Type(), C: []string{name}}
@@ -308,7 +312,7 @@ func (fv *FuncVC) loadStruct(st *State, base string, t types.Type) Val {
 			cs = append(cs, fv.loadStruct(st, fv.fldTerm(t, i, base), ft).C...)
 		} else {
 			for _, k := range fv.m.FieldKeys(t, i) {
-				cs = append(cs, Select(fv.m.heapGet(st, k), base))
+				cs = append(cs, fv.m.Sel(fv.m.heapGet(st, k), base))
 			}
 		}
 	}
@@ -326,7 +330,7 @@ func (fv *FuncVC) storeStruct(st *State, base string, t types.Type, v Val) {
 			fv.storeStruct(st, fv.fldTerm(t, i, base), ft, sub)
 		} else {
 			for j, k := range fv.m.FieldKeys(t, i) {
-				fv.m.heapSet(st, k, Store(fv.m.heapGet(st, k), base, sub.C[j]))
+				fv.m.heapStore(st, k, base, sub.C[j])
 			}
 		}
 		off += n
@@ -344,13 +348,13 @@ func (fv *FuncVC) load(st *State, a *Addr) Val {
 		}
 		var cs []string
 		for _, k := range fv.m.FieldKeys(a.StructT, a.Field) {
-			cs = append(cs, Select(fv.m.heapGet(st, k), a.Base))
+			cs = append(cs, fv.m.Sel(fv.m.heapGet(st, k), a.Base))
 		}
 		return Val{T: ft, C: cs}
 	case ACell:
 		var cs []string
 		for _, k := range fv.m.CellKeys(a.T) {
-			cs = append(cs, Select(fv.m.heapGet(st, k), a.Base))
+			cs = append(cs, fv.m.Sel(fv.m.heapGet(st, k), a.Base))
 		}
 		return Val{T: a.T, C: cs}
 	case AElem:
@@ -377,11 +381,11 @@ func (fv *FuncVC) store(st *State, a *Addr, v Val) {
 			return
 		}
 		for j, k := range fv.m.FieldKeys(a.StructT, a.Field) {
-			fv.m.heapSet(st, k, Store(fv.m.heapGet(st, k), a.Base, v.C[j]))
+			fv.m.heapStore(st, k, a.Base, v.C[j])
 		}
 	case ACell:
 		for j, k := range fv.m.CellKeys(a.T) {
-			fv.m.heapSet(st, k, Store(fv.m.heapGet(st, k), a.Base, v.C[j]))
+			fv.m.heapStore(st, k, a.Base, v.C[j])
 		}
 	case AElem:
 		for j, k := range fv.m.ElemKeys(a.T) {
@@ -393,6 +397,9 @@ func (fv *FuncVC) store(st *State, a *Addr, v Val) {
 
 // withTypeFacts assumes the type facts of a value that comes from the environment (load, param, call result).
 func (fv *FuncVC) typeFacts(v Val, st *State, guard string) {
+	if fv.binderDepth > 0 {
+		return
+	}
 	cnt := ""
 	if st != nil {
 		cnt = st.cnt
@@ -427,7 +434,12 @@ func (fv *FuncVC) ifaceFacts(v Val) {
 }
 
 func (fv *FuncVC) typeID(t types.Type) string {
-	return IntLit(int64(fv.ctx.TypeID(types.TypeString(types.Unalias(t), fv.m.qual))))
+	id := IntLit(int64(fv.ctx.TypeID(types.TypeString(types.Unalias(t), fv.m.qual))))
+	if fv.typeByID == nil {
+		fv.typeByID = map[string]types.Type{}
+	}
+	fv.typeByID[id] = types.Unalias(t)
+	return id
 }
 
 func (fv *FuncVC) alloc(st *State) string {
@@ -682,8 +694,15 @@ func (fv *FuncVC) loopHeader(fr *Frame, h *ssa.BasicBlock, cur *State, reach str
 		cur.heap = map[string]string{}
 		cur.epoch = 1000000 + fv.ctx.nfresh
 	} else {
+		general, gall := fv.loopGeneralWrites(fr, li)
 		for _, k := range keys {
-			fv.m.heapHavoc(cur, HeapKey{k, heapKeySorts[k]})
+			hk := HeapKey{k, heapKeySorts[k]}
+			before := fv.m.heapGet(cur, hk)
+			after := fv.m.heapHavoc(cur, hk)
+			if !gall && !general[k] && strings.HasPrefix(string(hk.Sort), "(Array Int ") {
+				// automatic frame: only objects allocated inside the loop are written under this key
+				fv.ctx.Assume(fmt.Sprintf("(forall ((r Int)) (! (=> (< r %s) (= (select %s r) (select %s r))) :pattern ((select %s r))))", cur.cnt, after, before, after))
+			}
 		}
 	}
 	oldCnt := cur.cnt
@@ -1590,3 +1609,39 @@ func sidx(off, i string) string {
 }
 
 func isConstVal(v ssa.Value) bool { _, ok := v.(*ssa.Const); return ok }
+
+// globalConstFact: a package-level variable initialised with a constant and never assigned
+// outside init holds that constant (fact about the initial heap).
+func (fv *FuncVC) globalConstFact(g *ssa.Global, gname string, pt types.Type) {
+	fv.v.scanGlobalMutation()
+	if fv.v.globalMutated[g] {
+		return
+	}
+	initFn := g.Pkg.Func("init")
+	if initFn == nil {
+		return
+	}
+	var cv *ssa.Const
+	n := 0
+	for _, b := range initFn.Blocks {
+		for _, in := range b.Instrs {
+			if st, ok := in.(*ssa.Store); ok && st.Addr == g {
+				n++
+				if c, ok := st.Val.(*ssa.Const); ok {
+					cv = c
+				}
+			}
+		}
+	}
+	if n != 1 || cv == nil {
+		return
+	}
+	init0 := &State{heap: map[string]string{}, epoch: 0, cnt: "cnt0", ghost: map[string]Val{}}
+	val := fv.constVal(cv)
+	for j, k := range fv.m.CellKeys(pt) {
+		if j < len(val.C) {
+			fv.ctx.Assume(Eq(Select(fv.m.heapGet(init0, k), gname), val.C[j]))
+		}
+	}
+	fv.assumed[fmt.Sprintf("global %s.%s holds its initial constant; checked: never assigned outside init", g.Pkg.Pkg.Path(), g.Name())] = true
+}
